@@ -18,7 +18,12 @@ func VP_C09_dynbt() {
 	vp.Assume(v1.MarshalNBT(&w1) == nil)
 	if vp.Choice(2) == 0 {
 		var v2 Value
-		r2 := &vpByteReader{b: b, fail: -1, chunk: 1 + vp.Choice(2)}
+		r2 := &vpByteReader{b: b, fail: -1}
+		if k := vp.Choice(4); k == 3 {
+			r2.once = true
+		} else {
+			r2.chunk = 1 + k
+		}
 		e2 := v2.UnmarshalNBT(tag, r2)
 		vp.Assert(e2 == nil, "same error-ness under fragmentation")
 		vp.Assert(r2.pos == r1.pos, "same residual stream under fragmentation")
@@ -40,13 +45,15 @@ func VP_C09_dynbt() {
 }
 
 type vpFailWriter struct {
-	b     []byte
-	limit int
+	b         []byte
+	limit     int
+	transient bool // fail one call only
+	failed    bool
 }
 
 func (w *vpFailWriter) Write(p []byte) (int, error) {
 	room := w.limit - len(w.b)
-	if room >= len(p) {
+	if room >= len(p) || (w.transient && w.failed) {
 		w.b = append(w.b, p...)
 		return len(p), nil
 	}
@@ -54,6 +61,7 @@ func (w *vpFailWriter) Write(p []byte) (int, error) {
 		room = 0
 	}
 	w.b = append(w.b, p[:room]...)
+	w.failed = true
 	return room, vpErrInjected
 }
 
@@ -69,7 +77,7 @@ func VP_C09_failwrite_dynbt() {
 	ks := []int{0, len(b) / 2, len(b) - 1}
 	k := ks[vp.Choice(len(ks))]
 	vp.Assume(k >= 0 && k < len(b))
-	w := &vpFailWriter{limit: k}
+	w := &vpFailWriter{limit: k, transient: vp.Bool()}
 	vp.Assert(v.MarshalNBT(w) != nil, "write failure is reported")
 	vp.Cover("end")
 }
